@@ -639,6 +639,35 @@ def lattice_requests(rng, radii):
     return out
 
 
+FIXED_TRIPLES = [(3, 8, 17), (3, 10, 19), (2, 21, 26), (7, 15, 17)]
+
+
+def unequal_triple_requests(rng, quick):
+    import itertools
+    if quick:
+        triples = list(FIXED_TRIPLES)
+        while len(triples) < 12:
+            t = tuple(sorted(rng.sample(range(1, 21), 3)))
+            if t not in triples:
+                triples.append(t)
+    else:
+        triples = FIXED_TRIPLES + [t for t in itertools.combinations(range(1, 21), 3)]
+    out = []
+    for k, t in enumerate(triples):
+        rr = list(t)
+        rng.shuffle(rr)
+        n = [min(48, 2 * r + 2 + 2 * rng.randint(0, 1)) for r in rr]
+        n = [x + (x % 2) for x in n]
+        c = [x // 2 for x in n]
+        if rng.random() < 0.5:
+            c = [min(n[i] - 1, max(0, c[i] + rng.randint(-1, 1))) for i in range(3)]
+        out.append({"shape": "ell", "n": n, "c": c, "dc": c == [x // 2 for x in n], "rr": rr})
+        if min(rr) >= 3 and (quick or k % 4 == 0):
+            mid = [r - 1 for r in rr]
+            out.append({"shape": "eshell", "n": n, "c": [x // 2 for x in n], "dc": True, "rr": mid, "t": 2})
+    return out
+
+
 def gen_l3_cases(ctx, rng, n_hard, n_soft, n_alg, cap, nbig, soft_rounds=1):
     cases = []
     for i in range(n_hard):
@@ -650,6 +679,11 @@ def gen_l3_cases(ctx, rng, n_hard, n_soft, n_alg, cap, nbig, soft_rounds=1):
     # lattice points lying exactly on the surface (Pythagorean radii 5, 10, 13, 15, 17, 20 ...), for EVERY constructor:
     # spheres, cylinders, ellipsoids with a pair of equal radii (every position of the third), both shell kinds
     for q in lattice_requests(rng, [5, 10, 13, 15, 17, 20] if soft_rounds == 1 else list(range(1, 24))):
+        cases.append({"kind": "hard", "req": q, "variant": rng.randrange(64)})
+    # ellipsoids with three UNEQUAL radii (voxels just outside the surface: 1 < sum <= 1 + 1e-5 happens for coprime
+    # triples such as (3, 8, 17)): a fixed sample in the quick tier, every sorted triple up to 20 in the thorough tier,
+    # through ellipsoid_mask and ellipsoid_shell_mask (shell radii one below, thickness 2: the outer solid is the triple)
+    for q in unequal_triple_requests(rng, soft_rounds == 1):
         cases.append({"kind": "hard", "req": q, "variant": rng.randrange(64)})
     # soft edges, blurred outwards: every shape that has the flag x every width (cylinders with odd and even heights),
     # core inside the box
@@ -765,7 +799,8 @@ def run(ctx):
         reqs += [rand_algebra(rng) for _ in range(ctx.pick(60, 600))]
         # the name generator on radii whose surface passes through lattice points off the axes
         for kind, nums in ([("ellipsoid", [13, 13, rng.randint(1, 6)]), ("ellipsoid", [rng.randint(1, 6), 5, 5]),
-                            ("e_shell", [12, 4, 12, 2]), ("sphere", [13]), ("cylinder", [13, 3]), ("s_shell", [12, 2])]
+                            ("e_shell", [12, 4, 12, 2]), ("sphere", [13]), ("cylinder", [13, 3]), ("s_shell", [12, 2]),
+                            ("ellipsoid", [3, 8, 17]), ("ellipsoid", [17, 7, 15]), ("e_shell", [9, 2 + 1, 18, 2])]
                            + ([] if ctx.quick else [("ellipsoid", [17, 3, 17]), ("ellipsoid", [10, 10, 10]), ("sphere", [17]),
                                                     ("e_shell", [14, 14, 5, 2]), ("cylinder", [17, 2]), ("s_shell", [14, 2])])):
             reqs.append({"shape": "name", "kind": kind, "nums": nums, "size": 0, "exp": 4, "pad": 0})
